@@ -110,6 +110,9 @@ func intersectingCap(context *api.Context, center b6.Geometry, radius float64) (
 	if err := requireGeometry("intersecting-cap", center); err != nil {
 		return nil, err
 	}
+	if !center.Point().IsUnit() {
+		return nil, fmt.Errorf("intersecting-cap: center isn't a valid point")
+	}
 	return b6.NewIntersectsCap(s2.CapFromCenterAngle(center.Point(), b6.MetersToAngle(radius))), nil
 }
 
